@@ -8,6 +8,7 @@ import EqlModel.SpecExec
 import EqlModel.Cache
 import EqlModel.Lemmas.CacheDefs
 import EqlModel.Mode
+import EqlModel.Registry
 
 open Eql Eql.Sexp
 
@@ -145,11 +146,43 @@ def runMode (args : List Sexp) : Option String := do
     outs := outs ++ [showObs (Mode.observe s)]
   return s!"{id}\t{"|".intercalate outs}"
 
+-- ---------------------------------------------------------------- registry histories (C14)
+
+/-- `(reg id (classes (c base|-) ..) (ops (c cls) (s cls) (clr) (q cls) ..))`: classes are numbered;
+    the answer of every `q` (instance numbers, sorted) and the final init count. -/
+def runReg (args : List Sexp) : Option String := do
+  let id ← (← args.head?).atom?
+  let classes ← (← field? "classes" args).mapM fun c => match c with
+    | .list [n, b] => do
+        let b ← b.atom?
+        pure ((← n.nat?), b.toNat?)
+    | _ => none
+  let parent : Nat → Option Nat := fun c => (classes.lookup c).join
+  let sub : Nat → Nat → Bool := fun c t =>
+    let rec go (c : Nat) : Nat → Bool
+      | 0 => c == t
+      | f + 1 => c == t || (match parent c with | some p => go p f | none => false)
+    go c classes.length
+  let ops ← field? "ops" args
+  let mut s : Registry.RState := {}
+  let mut outs : List String := []
+  for op in ops do
+    match op.headed? with
+    | some ("c", [c]) => s := Registry.step s (.concrete (← c.nat?))
+    | some ("s", [c]) => s := Registry.step s (.symbolic (← c.nat?))
+    | some ("clr", []) => s := Registry.step s .clear
+    | some ("q", [c]) =>
+        let r := (Registry.query sub s (← c.nat?)).mergeSort (fun a b => a ≤ b)
+        outs := outs ++ [",".intercalate (r.map toString)]
+    | _ => none
+  return s!"{id}\t{"|".intercalate outs}\t{s.inits}"
+
 def process (line : String) : String :=
   match Sexp.parse line with
   | some [.list (.atom "q" :: args)] => (runQuery args).getD "ERR decode"
   | some [.list (.atom "cache" :: args)] => (runCache args).getD "ERR decode"
   | some [.list (.atom "mode" :: args)] => (runMode args).getD "ERR decode"
+  | some [.list (.atom "reg" :: args)] => (runReg args).getD "ERR decode"
   | some _ => "ERR unknown-command"
   | none => "ERR parse"
 
